@@ -97,6 +97,8 @@ class PaneBase:
     def __class_getitem__(cls, params: t.Union[type, t.Tuple[type, ...]]):
         if not isinstance(params, tuple):
             params = (params,)
+        # in a subscript `None` stands for `NoneType`, as in `typing`
+        params = tuple(type(None) if p is None else p for p in params)
         # `==` alone is too coarse a cache key (`Union[int, float] == Union[float, int]`,
         # `Literal[0, False] == Literal[False, 0]`): also key on the parameters as written
         return _make_subclass(cls, params, repr(params))
